@@ -89,6 +89,7 @@ pub fn gen_ws_conn(r: &mut Rng, nonce: &mut u64, port: u16, allow_faults: bool) 
     let my = *nonce;
     *nonce += 1;
     let glen = *r.pick(&[0usize, 0, 1, 5, 64]);
+    let block_mode = r.chance(1, 3);
     let key = gen_key(r);
     // which elements are broken (bit set = broken)
     let broken: u32 = if r.chance(1, 2) { 0 } else { r.range(1, 15) as u32 };
@@ -96,7 +97,7 @@ pub fn gen_ws_conn(r: &mut Rng, nonce: &mut u64, port: u16, allow_faults: bool) 
     let mut tab = false;
     let mut headers: Vec<(String, Vec<u8>)> = vec![
         hdr("host", "sim"),
-        hdr("x-sim", &format!("{};0;0;0;{}", my, glen)),
+        hdr("x-sim", &format!("{};0;0;0;{};{}", my, glen, if block_mode { 2 } else { 0 })),
     ];
     // Connection
     if broken & 1 == 0 {
@@ -171,6 +172,8 @@ pub fn gen_ws_conn(r: &mut Rng, nonce: &mut u64, port: u16, allow_faults: bool) 
     if valid {
         let plen = *r.pick(&[0usize, 1, 7, 100, 1000, 5000, 16384]);
         let plen = if plen > 7 { r.usize_in(0, plen) } else { plen };
+        // a handler reading fixed-size blocks is sent whole blocks
+        let plen = if block_mode { plen - plen % crate::api::ws::BLOCK } else { plen };
         let payload = r.bytes(plen);
         let early = if r.chance(1, 4) { r.usize_in(0, plen) } else { 0 };
         let mut first = head.clone();
@@ -256,7 +259,7 @@ pub fn gen_random(seed: u64, idx: u64) -> Plan {
     Plan {
         property: "C20".into(),
         seed: mix(seed, idx),
-        server: ServerPlan { mode, body_limit: 1024, api: ApiKind::Ws, rt_override: None },
+        server: ServerPlan { mode, body_limit: 1024, api: ApiKind::Ws, rt_override: None, tls: false },
         conns,
         shutdown: None,
         accept_errs: vec![],
